@@ -53,6 +53,7 @@ class FnContract:
     native: Optional[dict] = None  # replay scaffolding: {"setup": "<python source>"}
     verify: bool = True            # False: contract is assumed (trusted), listed as such
     doc: str = ""
+    tier: str = "quick"               # "thorough": obligation too slow for the per-change check, discharged in the thorough tier only
     source: Optional[str] = None      # driver glue (one or two lines) written in /verif; the real bodies it calls are inlined from /repo
     engine: str = "int"              # "fp": ints as 64-bit vectors, floats as binary64 (QF_FPBV)
     param_values: Dict[str, Any] = field(default_factory=dict)   # concrete live objects bound to parameters (finite instantiation)
